@@ -48,6 +48,9 @@ pub enum VOp {
     ForEach(Vec<Dec>),
     Entries(Vec<Dec>),
     Txn(Vec<VOp>, TxEnd),
+    /// harness operation (no library call): drop every subscriber stream, also the reference one, at this
+    /// point - inside a transaction body this leaves the vector without receivers mid-transaction
+    DropSubs,
 }
 
 impl VOp {
@@ -68,6 +71,7 @@ impl VOp {
             VOp::EntryGet(i) => format!("entry({i})"),
             VOp::ForEach(d) => format!("for_each{d:?}"),
             VOp::Entries(d) => format!("entries{d:?}"),
+            VOp::DropSubs => "[drop all subscribers]".into(),
             VOp::Txn(body, end) => {
                 let b: Vec<String> = body.iter().map(|o| o.show()).collect();
                 let e = match end {
@@ -101,6 +105,7 @@ impl VOp {
             VOp::ForEach(_) => "for_each",
             VOp::Entries(_) => "entries",
             VOp::Txn(..) => "txn",
+            VOp::DropSubs => "drop_subs",
         }
     }
 }
@@ -197,6 +202,7 @@ pub fn model_op(m: &mut Vec<u32>, op: &VOp) -> Ret {
             }
             Ret::Visit(seen)
         }
+        VOp::DropSubs => Ret::Unit,
         VOp::Txn(..) => unreachable!("transactions are modelled by the caller"),
     }
 }
@@ -214,7 +220,7 @@ pub fn direct_messages(before: &[u32], op: &VOp) -> usize {
         VOp::Set(i, _) | VOp::EntrySet(i, _) | VOp::Remove(i) | VOp::EntryRemove(i) => {
             (*i < len) as usize
         }
-        VOp::EntryGet(_) => 0,
+        VOp::EntryGet(_) | VOp::DropSubs => 0,
         VOp::Truncate(n) => (*n < len) as usize,
         VOp::ForEach(decs) | VOp::Entries(decs) => {
             let can_stop = matches!(op, VOp::Entries(_));
@@ -396,6 +402,7 @@ macro_rules! exec_impl {
                     }
                     Ret::Visit(seen)
                 }
+                VOp::DropSubs => Ret::Unit,
                 VOp::Txn(..) => unreachable!("transactions are executed by the caller"),
             }));
             match r {
